@@ -582,6 +582,11 @@ class Eval:
                 a_ = tuple(self.fmt_args(e, env, depth))
                 w = ("write", anon_names(t, len(a_)) + ("\n" if mac == "writeln" else ""), a_)
                 helpers_ = [self._display_helper(x) for x in a_]
+                # `xs.iter().map(..).format(", ")` / `.join(", ")` printed through a `{}`: every element, a separator before all but the first
+                joined_ = [isinstance(x, tuple) and x[:1] == ("call",) and x[1] in ("Itertools::format", "Itertools::join") and len(x[2]) == 2
+                           and isinstance(x[2][1], tuple) and x[2][1][:1] == ("lit",) and isinstance(x[2][1][1], str) for x in a_]
+                if any(joined_):
+                    helpers_ = [("joined",) if j_ else h_ for j_, h_ in zip(joined_, helpers_)]
                 if any(h_ is not None for h_ in helpers_) and re.fullmatch(r"(?:[^{}]|\{\})*", w[1]) and w[1].count("{}") == len(a_):
                     # an argument whose type got its own Display impl after the rules were written: that impl is a helper of this printer and
                     # its writes happen here, between the literal pieces of the template
@@ -595,6 +600,16 @@ class Eval:
                         x_, h_ = args_.pop(0)
                         if h_ is None:
                             self.out.append((self.full_conds(), tuple(self.loops), ("write", "{}", (x_,))))
+                            continue
+                        if h_ == ("joined",):
+                            src_, sep_ = x_[2][0], x_[2][1][1].replace("{", "{{").replace("}", "}}")
+                            self.loops.append(src_)
+                            if sep_:
+                                self.conds.append((("bin", "Gt", ("idx", src_), ("lit", 0)), True))
+                                self.out.append((self.full_conds(), tuple(self.loops), ("write", sep_, ())))
+                                self.conds.pop()
+                            self.out.append((self.full_conds(), tuple(self.loops), ("write", "{}", (("each", src_),))))
+                            self.loops.pop()
                             continue
                         self._helper_depth += 1
                         self._helper_stack.append(h_["def_path"])
@@ -1015,6 +1030,8 @@ class Eval:
             self.out.append((self.full_conds(), tuple(self.loops), ("emit", name, tuple(args))))
         if name in ("Display::fmt", "Precedence::fmt_unary", "Precedence::fmt_binary", "Precedence::fmt_operator", "Debug::fmt"):
             self.out.append((self.full_conds(), tuple(self.loops), ("emit", name, tuple(args[:-1]))))
+        if name == "mem::take" and len(args) == 1:
+            return args[0]      # the value taken out of the place (the place is left empty; the callers that matter assign it again)
         if name in ("Clone::clone", "ToOwned::to_owned") and len(args) == 1 and e.get("k") == "Call":
             return args[0]      # `T::clone(&x)`: the path spelling of `x.clone()`, a copy has the value of the original
         # iterator combinators over closures: keep symbolic but apply ctor functions
